@@ -1,0 +1,30 @@
+//go:build verif
+
+package gitattributes
+
+// Contracts for the gvc verifier (/verif). Comment-only; never compiled into
+// a normal build.
+
+// Property C53 for the .gitattributes line parser: no input line makes it
+// index outside a string or a field list (the engine's own bounds obligations,
+// `opt safety`; nothing else is claimed about what it parses).
+
+// unquote: a leading double-quoted pattern and the rest of the line.
+//gvc:func unquote
+//gvc:  props C53
+//gvc:  theory int
+//gvc:  opt coarse
+//gvc:  opt frame args
+//gvc:  opt safety
+//gvc:  requires nonempty: len(str) > 0
+//gvc:  loop 1 invariant pos: 1 <= i
+//gvc:end
+
+//gvc:func ParseAttributesLine
+//gvc:  props C53
+//gvc:  theory int
+//gvc:  opt coarse
+//gvc:  opt frame args
+//gvc:  opt safety
+//gvc:  loop 1 invariant fields: forall(k, 0, len(attrs), len(attrs[k]) > 0)
+//gvc:end
